@@ -54,9 +54,12 @@ Res(op, in, strict, dialect, p) ==
            [] in = "mylimit"            -> IF dialect = "mysql" THEN Ok ELSE Fail(p)
 
 \* The position mapping in effect during a call.
+\* (recovery parsing of tokenizer output builds its own mapping for the duration of the call)
 PosDuring(op, in) ==
-    IF op = "ParsePos" THEN in
+    IF op \in {"ParsePos", "Recovery"} THEN in
     ELSE IF Shape = "pinned" THEN inst.pos ELSE "nil"
+\* ... and which mapping is still in the instance afterwards
+PosAfter(op, in) == IF op = "Recovery" THEN "nil" ELSE PosDuring(op, in)
 
 ResetOf(i)   == [toks |-> FALSE, pos |-> "nil", strict |-> FALSE,
                  dialect |-> IF Shape = "pinned" THEN i.dialect ELSE ""]
@@ -122,10 +125,10 @@ Call(op, in) ==
     /\ where = "held"
     /\ LET p == PosDuring(op, in)
            r == Res(op, in, inst.strict, inst.dialect, p)
-           f == Res(op, in, holder.strict, holder.dialect, IF op = "ParsePos" THEN in ELSE "nil")
+           f == Res(op, in, holder.strict, holder.dialect, IF op \in {"ParsePos", "Recovery"} THEN in ELSE "nil")
        IN /\ last' = [res |-> r, fresh |-> f]
           \* CtxDone returns before touching the instance; every other call leaves its tokens behind
-          /\ inst' = IF op = "CtxDone" THEN inst ELSE [inst EXCEPT !.toks = TRUE, !.pos = p]
+          /\ inst' = IF op = "CtxDone" THEN inst ELSE [inst EXCEPT !.toks = TRUE, !.pos = PosAfter(op, in)]
           /\ UNCHANGED <<where, holder>>
           /\ Log([op |-> op, in |-> in, exp |-> f, st |-> St(inst', where, holder)])
 
